@@ -19,6 +19,8 @@ package motion
 import (
 	"errors"
 	"reflect"
+	"sync"
+	"sync/atomic"
 	"time"
 
 	"github.com/TheCacophonyProject/go-cptv/cptvframe"
@@ -97,6 +99,9 @@ type MotionProcessor struct {
 	StartSnapshot     bool
 	SnapshotRecording bool
 	snapshotFrames    int
+	// snapshotMu guards StartSnapshot, which is set from the D-Bus service
+	// goroutine and consumed by the frame loop.
+	snapshotMu sync.Mutex
 }
 
 type RecordingListener interface {
@@ -117,21 +122,38 @@ func (mp *MotionProcessor) Process(rawFrame []byte) error {
 		mp.stopConstantRecorder()
 		return err
 	}
-	mp.CurrentFrame += 1
+	atomic.AddUint32(&mp.CurrentFrame, 1)
 	mp.process(frame)
 	mp.processConstantRecorder(frame)
 	mp.processSnapshot(frame)
 	return nil
 }
 
+// RequestSnapshotRecording asks for a test recording to start with the next
+// processed frame. It may be called from any goroutine.
+func (mp *MotionProcessor) RequestSnapshotRecording() {
+	mp.snapshotMu.Lock()
+	mp.StartSnapshot = true
+	mp.snapshotMu.Unlock()
+}
+
+// FrameNumber returns the number of frames accepted so far. It may be called
+// from any goroutine.
+func (mp *MotionProcessor) FrameNumber() uint32 {
+	return atomic.LoadUint32(&mp.CurrentFrame)
+}
+
 func (mp *MotionProcessor) processSnapshot(frame *cptvframe.Frame) {
-	if mp.StartSnapshot && mp.SnapshotRecording {
+	mp.snapshotMu.Lock()
+	startSnapshot := mp.StartSnapshot
+	mp.StartSnapshot = false
+	mp.snapshotMu.Unlock()
+	if startSnapshot && mp.SnapshotRecording {
 		// A test recording is already in progress; it serves this request too.
-		mp.StartSnapshot = false
+		startSnapshot = false
 	}
-	if mp.StartSnapshot {
+	if startSnapshot {
 		mp.log.Printf("making a snapshot")
-		mp.StartSnapshot = false
 		if err := mp.snapshotRecorder.StartRecording(mp.motionDetector.background, 0); err != nil {
 			mp.log.Printf("error with starting constant recorder: %v", err)
 			return
@@ -232,7 +254,7 @@ func (mp *MotionProcessor) ProcessFrame(srcFrame *cptvframe.Frame) {
 }
 
 func (mp *MotionProcessor) GetRecentFrame() (uint32, *cptvframe.Frame) {
-	return mp.CurrentFrame, mp.frameLoop.CopyRecent()
+	return mp.FrameNumber(), mp.frameLoop.CopyRecent()
 }
 
 func (mp *MotionProcessor) canStartWriting() error {
